@@ -119,13 +119,21 @@ def match_known(known, prop, cfg, label, env, detail):
             try:
                 ok = eval(m["where"], {"__builtins__": {}},
                           dict(cfg=cfg, env=env or {}, label=label, detail=detail or {}, floor=math.floor,
-                               abs=abs, int=int, len=len, any=any, all=all, str=str, min=min, max=max))
+                               abs=abs, int=int, len=len, any=any, all=all, str=str, min=min, max=max,
+                               prod=_prod))
             except Exception:
                 ok = False
             if not ok:
                 continue
         return k
     return None
+
+
+def _prod(xs):
+    r = 1
+    for x in xs:
+        r *= x
+    return r
 
 
 def do_replays(prop, harness_name, repo, cases, outdir):
@@ -182,6 +190,12 @@ def main(argv=None):
             return 1
         return 0
 
+    import glob
+    for old in glob.glob(os.path.join(VERIF, "out", "replays", "%s-*.json" % prop)):
+        try:
+            os.remove(old)
+        except OSError:
+            pass
     import pymoto  # noqa: F401  (imported once in the parent from the tree under test; workers fork)
     h = importlib.import_module("harness." + prop)
     items = h.items(a.tier)
